@@ -348,6 +348,94 @@ def schedules(res: Result, shard_i: int, shard_n: int, total: int, sigs: set, li
         sch.stop()
 
 
+def _fresh_plan(k: int) -> tuple:
+    """The workload of fresh-interpreter schedule k (a function of the seed and k only, so parent and child agree)."""
+    rng = common.rng_for("C19", "fresh-sched", k)
+    tops = [c for c in pool_classes(0, common.rng_for("C19", "sched-pool")) if c.__type__.name != "nested"]
+    nthreads = rng.randint(2, 4)
+    base = rng.choice(tops)
+    same = rng.random() < 0.8
+    classes = [base if same else rng.choice(tops) for _ in range(nthreads)]
+    cases = [[Case(classes[t], rng, f"fs{k}t{t}")] for t in range(nthreads)]
+    d = rng.randint(1, 3)
+    return cases, d
+
+
+def fresh_schedule_child(k: int, horizon: int) -> dict:
+    """Runs in a brand-new interpreter: nothing has created a reader or writer yet, so this is a true cold start even for state
+    that ``cache_clear()`` cannot reach (module-level tables)."""
+    # import everything first: a thread preempted *inside an import* keeps the import lock, and under a baton scheduler the thread
+    # that then needs the same module could never get it (an interleaving real threads cannot be stuck in)
+    import kio.serial  # noqa: F401
+    import kio.serial._implicit_defaults  # noqa: F401
+    import kio.serial._introspect  # noqa: F401
+    import kio.serial._parse  # noqa: F401
+    import kio.serial._serialize  # noqa: F401
+    import kio.serial.errors  # noqa: F401
+    import kio.serial.readers  # noqa: F401
+    import kio.serial.writers  # noqa: F401
+
+    cases, d = _fresh_plan(k)
+    failures: list = []
+
+    def body(t: int) -> None:
+        for case in cases[t]:
+            try:
+                why = do_encode(case) or do_decode(case)
+            except BaseException as exc:  # noqa: BLE001
+                why = f"raised {exc!r}: {traceback.format_exc()[-500:]}"
+            if why:
+                failures.append((t, walk.class_path(case.cls), why))
+
+    sch = Scheduler()
+    sch.start()
+    try:
+        s, done = sch.run([lambda t=t: body(t) for t in range(len(cases))], seed=common.stable_hash("fresh-sched", common.seed(), k), d=d, horizon=horizon)
+    finally:
+        sch.stop()
+    return {"failures": failures[:3], "done": done, "points": s.points, "trace": s.trace, "signature": s.signature(), "d": d,
+            "tree": common.jsonable(cases[failures[0][0]][0].tree) if failures else None}
+
+
+def fresh_schedules(res: Result, shard_i: int, shard_n: int, total: int, sigs: set) -> None:
+    from kio.serial import entity_reader, entity_writer
+
+    sch = Scheduler()
+    for k in range(shard_i, total, shard_n):
+        cases, d = _fresh_plan(k)
+        # calibrate the horizon here (sequential, caches cleared); the child must not do it, or it would no longer be cold
+        entity_reader.cache_clear()
+        entity_writer.cache_clear()
+        sch.start()
+        try:
+            s0, _ = sch.run([(lambda t=t: [do_encode(c) or do_decode(c) for c in cases[t]]) for t in range(len(cases))], seed=0, d=0, horizon=1)
+        finally:
+            sch.stop()
+        horizon = max(10, s0.points)
+        code = (f"import sys, json; sys.path.insert(0, {str(common.VERIF)!r}); from kv.checks import state; "
+                f"print(json.dumps(state.fresh_schedule_child({k}, {horizon}), default=str))")
+        try:
+            p = subprocess.run([sys.executable, "-c", code], capture_output=True, text=True, timeout=300, cwd=str(common.VERIF),
+                               env=dict(os.environ, PYTHONHASHSEED="0", VERIF_SEED=str(common.seed())))
+            doc = json.loads(p.stdout.strip().splitlines()[-1])
+        except Exception as exc:  # noqa: BLE001
+            res.inconclusive_because(f"fresh-interpreter schedule {k} did not report: {exc!r}")
+            continue
+        res.count("fresh_interpreter_schedules")
+        if not doc["done"]:
+            res.inconclusive_because(f"fresh-interpreter schedule {k} did not finish")
+            continue
+        if doc["trace"]:
+            res.count("fresh_interpreter_schedules_with_switch")
+            sigs.add("fresh:" + doc["signature"])
+        if doc["failures"]:
+            t, cp, why = doc["failures"][0]
+            res.violation(f"sched:fresh-interpreter:{cp.rsplit(':', 1)[-1]}",
+                          f"thread {t} in a fresh interpreter (cold start) under schedule (k={k}, d={doc['d']}, horizon={horizon}): {why}",
+                          {"schedule": {"k": k, "d": doc["d"], "horizon": horizon, "switches": doc["trace"], "fresh_interpreter": True}, "class": cp, "tree": doc["tree"],
+                           "failures": [f[2] for f in doc["failures"]]})
+
+
 def stress(res: Result, seconds: float, nthreads: int = 16) -> None:
     """Uncontrolled run: real GIL scheduling with a tiny switch interval (below line granularity)."""
     import time
@@ -438,6 +526,7 @@ def c19_worker(res: Result, i: int, n: int) -> None:
     sigs: set = set()
     lines: set = set()
     schedules(res, i, n, 3200 if quick else 240000, sigs, lines)
+    fresh_schedules(res, i, n, 160 if quick else 4800, sigs)
     res.coverage["distinct_schedule_signatures_list"] = sorted(sigs)[:0]
     res.coverage["distinct_schedule_signatures"] = len(sigs)
     res.coverage["preemption_lines"] = sorted(lines)
@@ -456,7 +545,7 @@ def run(prop: str, tier_: str) -> int:
     res.coverage["distinct_schedule_signatures_note"] = "sum over workers of per-worker distinct signatures (workers run disjoint schedule indices)"
     floor_ok = (c.get("histories", 0) > 50 and c.get("fresh_interpreter_histories", 0) >= 8 and c.get("fault_positions", 0) > 1000
                 and c.get("schedules_with_switch_inside_kio", 0) > 100 and res.coverage.get("distinct_schedule_signatures", 0) > 50
-                and c.get("stress_ops_compared", 0) > 100)
+                and c.get("stress_ops_compared", 0) > 100 and c.get("fresh_interpreter_schedules_with_switch", 0) >= 20)
     res.assumptions += ["thread interleavings are explored at source-line granularity of kio/serial/* and kio/_utils.py with 1-4 preemptions; finer ones only by the "
                         "uncontrolled stress run under the GIL", "reference results are computed once, single-threaded, before each run (the oracle has no history)"]
     return res.finish(
@@ -465,8 +554,8 @@ def run(prop: str, tier_: str) -> int:
         "three parts on a pool of classes sharing nested plans: (1) random create/use/fail/reuse histories with caches cleared between them and "
         "histories in fresh interpreters; (2) for each instance the stream raises OSError/ConnectionResetError/a BaseException at every write and "
         "read call index, the error must surface unchanged and the same closure must work afterwards; (3) 2-6 real threads under a baton scheduler "
-        "preempting at 1-4 uniformly drawn source lines, cold and warm cache, every result compared with the history-free reference, plus an "
-        "uncontrolled 16-thread stress run; distinct = distinct schedule signatures (switch sequences) with a switch inside kio.serial",
+        "preempting at 1-4 uniformly drawn source lines, cold and warm cache, every result compared with the history-free reference, also as "
+        "true cold starts in fresh interpreters, plus an uncontrolled 16-thread stress run; distinct = distinct schedule signatures (switch sequences) with a switch inside kio.serial",
         floor_ok,
     )
 
